@@ -209,14 +209,21 @@ EvResult(ev) ==
 BinaryTok(x) == x \in {"b1", "b2", "db1"}
 HasBinary(q) == \E i \in 1..Len(q) : BinaryTok(q[i])
 
-HCall(ns, ev, sid, args) == [h |-> HKind, ns |-> ns, ev |-> ev, sid |-> sid, args |-> args]
+(* a handler invocation; `pre` = how many packets this step had already     *)
+(* sent to the client's own transport when the handler started (the order  *)
+(* of packets and handlers: CONNECT before the connect handler under       *)
+(* always_connect, DISCONNECT before the disconnect handler of             *)
+(* Server.disconnect(), ...)                                               *)
+HCallP(ns, ev, sid, args, pre) == [h |-> HKind, ns |-> ns, ev |-> ev, sid |-> sid, args |-> args, pre |-> pre]
+HCall(ns, ev, sid, args) == HCallP(ns, ev, sid, args, 0)
+SentTo(m, t) == IF t = "none" THEN 0 ELSE Len(Get(m.pk, t, <<>>))
 AddCall(m, c) == IF m.exc # "" THEN m ELSE [m EXCEPT !.hc = Append(@, c)]
 
 ----------------------------------------------------------------------------
 (* server.py _handle_disconnect (561-570) for one namespace                *)
 DiscHandler(m, ns, sid, reason) ==
     IF m.exc # "" \/ ns \notin NsH THEN m
-    ELSE LET m1 == AddCall(m, HCall(ns, "disconnect", sid, <<reason>>))
+    ELSE LET m1 == AddCall(m, HCallP(ns, "disconnect", sid, <<reason>>, SentTo(m, TOf(m.s, sid, ns))))
          IN  IF ns \in m.s.raiseDisc THEN Raise(m1, "Boom") ELSE m1
 
 (* Intended design: manager.disconnect() completes the termination even    *)
@@ -253,8 +260,8 @@ RxConnect(m, t, ns, auth) ==
         b   == IF ns \in NsH THEN AuthBehaviour(auth) ELSE "ok"
         \* `if data:` - an absent payload reaches a three-argument handler as None
         m3  == IF ns \in NsH
-               THEN AddCall(m2, HCall(ns, "connect", sid,
-                               <<"env:" \o t, IF auth = "absent" THEN "None" ELSE auth>>))
+               THEN AddCall(m2, HCallP(ns, "connect", sid,
+                               <<"env:" \o t, IF auth = "absent" THEN "None" ELSE auth>>, SentTo(m2, t)))
                ELSE m2
     IN
     IF b = "raise" THEN Raise(m3, "Boom")
@@ -277,7 +284,7 @@ HandleEventInternal(m, t, ns, id, ev, args, sid) ==
                  THEN IF HKind = "fn" THEN m
                       \* a class-based namespace is responsible even without on_<event>
                       ELSE IF id >= 0 THEN Send(m, t, Pkt("ACK", ns, id, <<>>)) ELSE m
-                 ELSE LET m1 == AddCall(m, HCall(ns, ev, sid, args))
+                 ELSE LET m1 == AddCall(m, HCallP(ns, ev, sid, args, SentTo(m, t)))
                       IN  IF r.k = "raise"
                           THEN IF AsyncHandlers THEN [m1 EXCEPT !.res = <<"bgexc", "Boom">>]
                                ELSE Raise(m1, "Boom")
@@ -690,7 +697,9 @@ C04_ConnectOutcome ==
                     /\ P = <<Pkt("CONNECT_ERROR", a.ns, -1, <<"Unable to connect">>)>>
                     /\ o.s.rooms = st.rooms
                ELSE /\ IF a.ns \in NsH
-                       THEN o.hc = <<HCall(a.ns, "connect", sid, <<"env:" \o a.t, seen>>)>>
+                       \* (under always_connect the CONNECT has gone out before the handler runs)
+                       THEN o.hc = <<HCallP(a.ns, "connect", sid, <<"env:" \o a.t, seen>>,
+                                            IF AlwaysConnect THEN 1 ELSE 0)>>
                        ELSE o.hc = <<>>
                     /\ CASE b = "ok" ->
                               /\ P = <<Pkt("CONNECT", a.ns, -1, <<"sid", sid>>)>>
@@ -717,7 +726,9 @@ C04_DisconnectHandler ==        \* which handler runs, for whom, with which reas
                     [] OTHER -> GConnOf(gh, a.sid, a.ns)
         IN  gh.dev = {} /\ o.exc = "" =>
             /\ {o.hc[i] : i \in 1..Len(o.hc)} =
-                 {HCall(c.ns, "disconnect", c.sid, <<ExpectedReason(a)>>) : c \in {c \in cs : c.ns \in NsH}}
+                 \* (Server.disconnect() tells the client before it tells the application)
+                 {HCallP(c.ns, "disconnect", c.sid, <<ExpectedReason(a)>>, IF a.act = "Disconnect" THEN 1 ELSE 0) :
+                     c \in {c \in cs : c.ns \in NsH}}
             /\ Len(o.hc) = Cardinality({c \in cs : c.ns \in NsH})
             /\ \A c \in cs : ~IsConnected(o.s, c.sid, c.ns) /\ NoRoomHas(o.s, c.sid)
             \* the transport's other namespaces are unaffected
